@@ -35,6 +35,12 @@ ShapeImpl(b) == <<b[4] - b[3], b[2] - b[1]>>                     \* (ny, nx)
 Center2Impl(b) == <<b[4] - 1 + b[3], b[2] - 1 + b[1]>>           \* 2*(cy, cx)
 Extent2Impl(b) == <<2 * b[1] - 1, 2 * b[2] - 1, 2 * b[3] - 1, 2 * b[4] - 1>>  \* 2*(xmin,xmax,ymin,ymax)
 
+(* to_region(): the rectangle region <<2*cx, 2*cy, width, height>> ; as_artist(): the matplotlib Rectangle       *)
+(* <<2*x of the lower-left corner, 2*y of it, width, height>>                                                        *)
+(* an empty box has no region: RectanglePixelRegion refuses a zero width or height (None here)                         *)
+ToRegionImpl(b) == IF b[2] = b[1] \/ b[4] = b[3] THEN None ELSE <<b[2] - 1 + b[1], b[4] - 1 + b[3], b[2] - b[1], b[4] - b[3]>>
+AsArtistImpl(b) == <<2 * b[1] - 1, 2 * b[3] - 1, b[2] - b[1], b[4] - b[3]>>
+
 (* windows are <<lo, hi>> pairs: large = <<ywin, xwin>> in the image, small likewise in the box *)
 SlicesImpl(b, h, w) ==
   LET xmin == b[1] xmax == b[2] ymin == b[3] ymax == b[4]
@@ -78,6 +84,20 @@ ExtentRef(b, r) ==             \* outer pixel edges: first pixel - 1/2 .. last p
          mn(S) == CHOOSE v \in S : \A u \in S : v <= u
          mx(S) == CHOOSE v \in S : \A u \in S : v >= u
      IN r = <<2 * mn(xs) - 1, 2 * mx(xs) + 1, 2 * mn(ys) - 1, 2 * mx(ys) + 1>>
+
+(* the region / the patch of a box covers exactly the pixels of the box, edge to edge: its sides are the outer     *)
+(* pixel edges (ExtentRef), so a pixel centre is inside it exactly when the pixel belongs to the box, and the box of   *)
+(* that region is the box again                                                                                     *)
+RectOfRegion2(r) == <<r[1] - r[3], r[1] + r[3], r[2] - r[4], r[2] + r[4]>>      \* 2*(xlo, xhi, ylo, yhi) of a centre/size rectangle
+RectOfPatch2(r) == <<r[1], r[1] + 2 * r[3], r[2], r[2] + 2 * r[4]>>
+CoversBox(b, rect2) ==
+  /\ Pixels(b) # {} => rect2 = Extent2Impl(b) /\ ExtentRef(b, rect2)
+  /\ \A x \in (Lo - 1)..(Hi + 1), y \in (Lo - 1)..(Hi + 1) :
+        (rect2[1] < 2 * x /\ 2 * x < rect2[2] /\ rect2[3] < 2 * y /\ 2 * y < rect2[4]) <=> <<x, y>> \in Pixels(b)
+ToRegionRef(b, r) == IF Pixels(b) = {} THEN r = None ELSE
+                     r # None /\ r[3] = b[2] - b[1] /\ r[4] = b[4] - b[3] /\ CoversBox(b, RectOfRegion2(r))
+                     /\ (Pixels(b) # {} => FromFloatImpl(<<4 * (r[1] - r[3]), 4 * (r[1] + r[3]), 4 * (r[2] - r[4]), 4 * (r[2] + r[4])>>) = b)
+AsArtistRef(b, r) == r[3] = b[2] - b[1] /\ r[4] = b[4] - b[3] /\ CoversBox(b, RectOfPatch2(r))
 
 Win(p) == p[1]..(p[2] - 1)
 SlicesRef(b, h, w, r) ==
@@ -127,6 +147,8 @@ Apply ==
     [] op = "from_float" -> FromFloatImpl(flt)
     [] op = "assoc_union" -> UnionImpl(UnionImpl(a, b), c)
     [] op = "assoc_inter" -> Inter3L
+    [] op = "to_region" -> ToRegionImpl(a)
+    [] op = "as_artist" -> AsArtistImpl(a)
 
 Return == pc = "call" /\ pc' = "ret" /\ res' = Apply /\ UNCHANGED <<op, a, b, c, img, flt>>
 Next == Return
@@ -142,6 +164,8 @@ InvCenter == Done /\ op = "center" => CenterRef(a, res)
 InvExtent == Done /\ op = "extent" => ExtentRef(a, res)
 InvSlices == Done /\ op = "slices" => SlicesRef(a, img[1], img[2], res)
 InvFromFloat == Done /\ op = "from_float" => FromFloatRef(flt, res)
+InvToRegion == Done /\ op = "to_region" => ToRegionRef(a, res)
+InvAsArtist == Done /\ op = "as_artist" => AsArtistRef(a, res)
 InvAssocUnion == Done /\ op = "assoc_union" => res = UnionImpl(a, UnionImpl(b, c))
 InvAssocInter == Done /\ op = "assoc_inter" =>
                    \* associativity on pixel sets (None and empty boxes both denote the empty set)
